@@ -4,11 +4,15 @@ package kaisim
 
 import (
 	"fmt"
+	"sort"
+	"strings"
 	"time"
 
 	corev1 "k8s.io/api/core/v1"
 
 	bindv1alpha2 "github.com/NVIDIA/KAI-scheduler/pkg/apis/scheduling/v1alpha2"
+	"github.com/NVIDIA/KAI-scheduler/pkg/scheduler/api/pod_info"
+	"github.com/NVIDIA/KAI-scheduler/pkg/scheduler/framework"
 )
 
 // realBinder: environment op "rbinder". The simulator is the binder's work queue: every BindRequest
@@ -22,6 +26,21 @@ func (r *Run) realBinder(op Op) {
 		r.brAttempts = map[string]int{}
 	}
 	retries := op.N
+	if op.Arg != "" { // "mid:<k>": a scheduler cycle runs just before the k-th API call of the first reconcile reaching it
+		var k int
+		if _, err := fmt.Sscanf(op.Arg, "mid:%d", &k); err == nil && k > 0 {
+			r.Binder.MidAt = k
+			r.Binder.MidHook = func() {
+				r.Probe("c12_cycle_during_reconcile")
+				r.apply(Op{Kind: "cycle"})
+			}
+		}
+	}
+	defer func() {
+		if r.Binder != nil {
+			r.Binder.MidAt, r.Binder.MidHook = 0, nil
+		}
+	}()
 	for round := 0; round <= retries; round++ {
 		progressed := false
 		for _, br := range r.API.BindRequests() {
@@ -39,7 +58,15 @@ func (r *Run) realBinder(op Op) {
 				r.brFailed[key] = 0 // a fresh request (the scheduler deleted the failed one and created a new one)
 			}
 			r.Binder.ResetCalls()
+			createdBefore := r.brCreates(br.Name)
 			res, err, crashed := r.Binder.Reconcile(br.Namespace, br.Name)
+			if r.brCreates(br.Name) != createdBefore {
+				// a scheduler cycle that ran while this reconcile was in flight deleted the request and created a new one
+				// with the same name: the attempt's outcome says nothing about the new request
+				r.Probe("rbinder_request_replaced_during_reconcile")
+				r.brFailed[key] = 0
+				continue
+			}
 			r.brAttempts[key]++
 			r.Probe("rbinder_reconciles")
 			progressed = true
@@ -116,6 +143,42 @@ func (o *HandoffOracle) AfterOp(r *Run, op Op) {
 	o.seenCalls = len(h)
 }
 
+// SessionOpen: "from the moment the scheduler creates a BindRequest until it reaches a terminal outcome, every snapshot
+// charges the pod's resources (including GPU groups) to the selected node".
+func (o *HandoffOracle) SessionOpen(r *Run, ssn *framework.Session) {
+	for _, br := range r.API.BindRequests() {
+		if br.DeletionTimestamp != nil || br.Status.Phase == bindv1alpha2.BindRequestPhaseSucceeded || BRTerminallyFailed(br) {
+			continue
+		}
+		pod := r.API.Pod(br.Namespace, br.Spec.PodName)
+		if pod == nil || pod.DeletionTimestamp != nil || (pod.Spec.NodeName != "" && pod.Spec.NodeName != br.Spec.SelectedNode) {
+			continue
+		}
+		if pod.Status.Phase == corev1.PodSucceeded || pod.Status.Phase == corev1.PodFailed {
+			continue
+		}
+		node, ok := ssn.ClusterInfo.Nodes[br.Spec.SelectedNode]
+		if !ok {
+			continue // the node is gone: the request is about to be deleted
+		}
+		r.Probe("c12_live_request_seen_at_session_open")
+		task, ok := node.PodInfos[pod_info.PodKey(pod)]
+		if !ok {
+			r.Fail("C12", "binding_pod_not_charged", "cycle %d: pod %s has a live BindRequest for node %s (phase %q) but the snapshot does not hold it on that node", r.cycle, pod.Name, br.Spec.SelectedNode, br.Status.Phase)
+			continue
+		}
+		if len(br.Spec.SelectedGPUGroups) > 0 {
+			want := append([]string(nil), br.Spec.SelectedGPUGroups...)
+			got := append([]string(nil), task.GPUGroups...)
+			sort.Strings(want)
+			sort.Strings(got)
+			if strings.Join(want, ",") != strings.Join(got, ",") {
+				r.Fail("C12", "binding_pod_gpu_groups", "cycle %d: pod %s is being bound to node %s into GPU groups %v (BindRequest, phase %q) but the snapshot charges it to groups %v (pod labels: %v)", r.cycle, pod.Name, br.Spec.SelectedNode, want, br.Status.Phase, got, PodGroups(pod))
+			}
+		}
+	}
+}
+
 func (o *HandoffOracle) Finish(r *Run) {
 	// the script ends with fault-free rounds: everything must have settled
 	nodes := map[string]bool{}
@@ -144,3 +207,14 @@ func (r *Run) persistentFailure(pod string) bool { return r.S.BindFail[pod] >= 9
 
 var _ = fmt.Sprintf
 var _ corev1.Pod
+
+// brCreates counts the BindRequests the scheduler has created for a pod so far (a request is named after its pod).
+func (r *Run) brCreates(name string) int {
+	n := 0
+	for _, c := range r.API.History() {
+		if c.Actor == "scheduler" && c.Verb == "create" && c.Resource == "bindrequests" && c.Name == name && c.Outcome == "ok" {
+			n++
+		}
+	}
+	return n
+}
